@@ -9,7 +9,7 @@ namespace Genshi.San
 /-! ### the pruned forest (specification of what survives) -/
 
 mutual
-  /-- an element that is not safe disappears with everything inside; comments disappear; every
+  /-- an element that is not safe disappears with everything inside; comments and the markers of CDATA sections disappear; every
       other node stays, elements with their attributes filtered -/
   def prune (cfg : Cfg) : Node → Except Err (List Node)
     | .elem t a ks =>
@@ -21,6 +21,8 @@ mutual
     | .leaf e =>
       match e with
       | .comment _ => pure []
+      | .startCdata => pure []
+      | .endCdata => pure []
       | .pi t d => if List.contains t '>' || List.contains d '>' then pure [] else pure [.leaf (.pi t d)]
       | e => pure [.leaf e]
   def pruneList (cfg : Cfg) : List Node → Except Err (List Node)
@@ -138,11 +140,13 @@ theorem keep_leaf (cfg : Cfg) (e : Event) (he : e.isStartEnd = false) (rest : St
     have : step cfg St.init (.endNs p) = .ok (St.init, [.endNs p]) := rfl
     rw [sanitizeFrom_ok_cons this]; simp [prune, ho, flattenList, Node.flatten]
   | startCdata =>
-    have : step cfg St.init .startCdata = .ok (St.init, [.startCdata]) := rfl
-    rw [sanitizeFrom_ok_cons this]; simp [prune, ho, flattenList, Node.flatten]
+    have : step cfg St.init .startCdata = .ok (St.init, []) := rfl
+    rw [sanitizeFrom_ok_cons this]
+    simp [prune, ho, flattenList]
   | endCdata =>
-    have : step cfg St.init .endCdata = .ok (St.init, [.endCdata]) := rfl
-    rw [sanitizeFrom_ok_cons this]; simp [prune, ho, flattenList, Node.flatten]
+    have : step cfg St.init .endCdata = .ok (St.init, []) := rfl
+    rw [sanitizeFrom_ok_cons this]
+    simp [prune, ho, flattenList]
 
 mutual
   theorem keep_node (cfg : Cfg) : ∀ (n : Node) (rest : Stream), n.ok = true →
